@@ -38,6 +38,7 @@ type FuncContract struct {
 	Checks   map[string]bool // ovf, bounds, nil, nopanic, conv
 	Inline   bool
 	Pure     bool // result is a deterministic function of leaf args
+	PureRefs bool // `purefn`: as Pure, but arguments may be references whose targets are assumed unchanged between uses (no syntactic check)
 	Trusted  bool // contract assumed, body not verified
 	Uses     []string // lemmas assumed (proved separately)
 	Sets     []*GhostSet // ghost updates performed at return (definitional)
@@ -498,6 +499,11 @@ func (cs *Contracts) LoadContractText(text, path, pkgPath string) error {
 		case "pure":
 			if cur != nil {
 				cur.Pure = true
+			}
+		case "purefn":
+			if cur != nil {
+				cur.Pure = true
+				cur.PureRefs = true
 			}
 		case "trusted":
 			if cur != nil {
